@@ -36,6 +36,9 @@ type SeqCase struct {
 	Cfg      Cfg           `json:"config"`
 	Ops      []Op          `json:"ops"`
 	SaveLoad *SaveLoadPlan `json:"saveload,omitempty"`
+	// Admission: pin the policy's random source and check, at cache level, that an entry of the main
+	// region is displaced by a new arrival only if the arrival's estimate is strictly greater (C18).
+	Admission bool `json:"admission,omitempty"`
 }
 
 type seqState struct {
@@ -841,6 +844,9 @@ func RunSeq(seed uint64, sc *SeqCase, gen *OpGen, nops int, stopAtFirst bool) *S
 		s := &seqState{m: m, r: r, flexExp: map[int][]int64{}, flexRef: map[int][]int64{}, refFree: map[int]bool{}, extraKey: map[int]bool{}}
 		ctx := &taskCtx{id: 0, opIdx: -1}
 		simrt.Cur().Tag = ctx
+		if sc.Admission {
+			otter.VerifPinRand(r.C)
+		}
 		if gen == nil {
 			nops = len(sc.Ops)
 		}
@@ -865,7 +871,18 @@ func RunSeq(seed uint64, sc *SeqCase, gen *OpGen, nops int, stopAtFirst bool) *S
 					}
 				}
 			}
+			var admQ map[int]int
+			var admSize uint64
+			admOn := sc.Admission && cfg.bounded() && m.visible(op.K) == nil &&
+				(op.Kind == "set" || op.Kind == "setifabsent" || (op.Kind == "compute" && op.Comp == "write") || (op.Kind == "computeifabsent" && op.Comp == "write"))
+			if admOn {
+				admQ = otter.VerifQueues(r.C)
+				_, _, admSize = otter.VerifFrequency(r.C, op.K)
+			}
 			res := r.Exec(op)
+			if admOn {
+				s.admissionCheck(op, admQ, admSize)
+			}
 			if Trace {
 				fmt.Printf("[%d] now=%d %s -> v=%d ok=%v err=%q panic=%v map=%v entry=%+v refresh=%v num=%d entries=%v\n", i, w.Now, op, res.V, res.Ok, res.Err, res.Panic, res.Map, res.Entry, res.Refresh, res.Num, res.Entries)
 				for _, ev := range r.Events[s.evStart:] {
@@ -936,3 +953,56 @@ func b2u(b bool) uint64 {
 
 // Trace prints every step of a sequential run (replay debugging).
 var Trace = os.Getenv("VERIF_TRACE") != ""
+
+// admissionCheck (C18, cache level): op created key C. If exactly one entry V was evicted for size,
+// V was in the main region (probation / protected) before the operation, has positive weight and C
+// survived, then some surviving entry that was in the admission window (or C itself) must have a
+// strictly greater frequency estimate than V: with the random admission pinned off, a new arrival
+// displaces the policy's victim only if its estimate is strictly greater.
+func (s *seqState) admissionCheck(op *Op, qBefore map[int]int, sizeBefore uint64) {
+	m, r := s.m, s.r
+	evs := r.Events[s.evStart:]
+	var ov []Event
+	for _, e := range evs {
+		if e.Atomic && (e.Cause == otter.CauseOverflow || e.Cause == otter.CauseExpiration) {
+			ov = append(ov, e)
+		}
+	}
+	if len(ov) != 1 || ov[0].Cause != otter.CauseOverflow || ov[0].K == op.K {
+		return
+	}
+	v := ov[0]
+	if m.cfg.weightOf(v.V) == 0 {
+		return
+	}
+	if q, ok := qBefore[v.K]; !ok || q == 0 {
+		return
+	}
+	if _, ok := r.C.GetEntryQuietly(op.K); !ok {
+		return
+	}
+	fv, enabled, sizeAfter := otter.VerifFrequency(r.C, v.K)
+	if !enabled || sizeAfter < sizeBefore {
+		return // tracking off, or an aging step ran during the operation
+	}
+	m.Probes["admission-decisions-checked"]++
+	cands := []int{op.K}
+	for k, q := range qBefore {
+		if q == 0 {
+			cands = append(cands, k)
+		}
+	}
+	sort.Ints(cands)
+	best := uint64(0)
+	for _, c := range cands {
+		if _, ok := r.C.GetEntryQuietly(c); !ok {
+			continue
+		}
+		if f, _, _ := otter.VerifFrequency(r.C, c); f > best {
+			best = f
+		}
+	}
+	if best <= fv {
+		m.fail(P("C18"), "admit.displaced-more-popular", v.K, "%s: key %d (estimate %d, in the main region) was evicted in favour of new arrivals whose best estimate is %d", op, v.K, fv, best)
+	}
+}
